@@ -2,6 +2,7 @@ package main
 
 import (
 	"fmt"
+	"go/types"
 	"sort"
 	"strings"
 
@@ -154,4 +155,113 @@ func init() {
 			fmt.Printf("== %s functions=%d sites=%d %v unproven-by-compiler=%d\n", sc.name, len(fns), len(sites), cnt, len(unp))
 		}
 	}
+}
+
+func init() {
+	explorations["lock"] = func(p *Prog) {
+		acc := p.lockAnalysis(func(pk string) bool { return pk == modPath || pk == modPath+"/http3" || pk == modPath+"/internal/flowcontrol" })
+		// group by field: owner struct's mutex fields
+		type stat struct {
+			under, total int
+			by           map[*types.Var]int
+			free         []string
+		}
+		stats := map[*types.Var]*stat{}
+		for _, a := range acc {
+			owner := fieldOwnerAny(p, a.Field)
+			if owner == nil {
+				continue
+			}
+			st, _ := owner.Underlying().(*types.Struct)
+			if st == nil {
+				continue
+			}
+			var mus []*types.Var
+			for i := 0; i < st.NumFields(); i++ {
+				if typeIs(st.Field(i).Type(), "sync", "Mutex") || typeIs(st.Field(i).Type(), "sync", "RWMutex") {
+					mus = append(mus, st.Field(i))
+				}
+			}
+			if len(mus) == 0 || typeIs(a.Field.Type(), "sync", "Mutex") || typeIs(a.Field.Type(), "sync", "RWMutex") {
+				continue
+			}
+			s := stats[a.Field]
+			if s == nil {
+				s = &stat{by: map[*types.Var]int{}}
+				stats[a.Field] = s
+			}
+			s.total++
+			held := false
+			for _, m := range mus {
+				if a.Held[m] {
+					s.by[m]++
+					held = true
+				}
+			}
+			if held {
+				s.under++
+			} else {
+				w := "r"
+				if a.Write {
+					w = "W"
+				}
+				s.free = append(s.free, w+" "+funcName(a.Fn)+" "+p.InstrPos(a.Instr))
+			}
+		}
+		var fs []*types.Var
+		for f := range stats {
+			fs = append(fs, f)
+		}
+		sort.Slice(fs, func(i, j int) bool {
+			oi, oj := fieldOwnerAny(p, fs[i]), fieldOwnerAny(p, fs[j])
+			if oi.String() != oj.String() {
+				return oi.String() < oj.String()
+			}
+			return fs[i].Name() < fs[j].Name()
+		})
+		for _, f := range fs {
+			s := stats[f]
+			if s.under == 0 {
+				continue
+			}
+			fmt.Printf("%-60s %-28s under=%d/%d\n", fieldOwnerAny(p, f).String(), f.Name(), s.under, s.total)
+			if s.under < s.total {
+				for _, x := range s.free {
+					fmt.Printf("      unlocked: %s\n", x)
+				}
+			}
+		}
+	}
+}
+
+var ownerAnyCache = map[*types.Var]types.Type{}
+
+func fieldOwnerAny(p *Prog, f *types.Var) types.Type {
+	if t, ok := ownerAnyCache[f]; ok {
+		return t
+	}
+	for _, pk := range p.Pkgs {
+		if !InRepo(pk.PkgPath) {
+			continue
+		}
+		sc := pk.Types.Scope()
+		for _, name := range sc.Names() {
+			tn, ok := sc.Lookup(name).(*types.TypeName)
+			if !ok {
+				continue
+			}
+			st, ok := tn.Type().Underlying().(*types.Struct)
+			if !ok {
+				continue
+			}
+			for i := 0; i < st.NumFields(); i++ {
+				if st.Field(i).Origin() == f.Origin() {
+					ownerAnyCache[f] = tn.Type()
+					return tn.Type()
+				}
+			}
+		}
+	}
+	ownerAnyCache[f] = nil
+	return nil
 }
